@@ -22,6 +22,15 @@ class ScriptedError(Exception):
     pass
 
 
+class ScriptedSolutionError(SolutionError):
+    """A fault that is itself a fsic SolutionError (e.g. a nested solve failing inside a pass or hook):
+    it must be wrapped and chained like any other exception."""
+
+
+def fault(flavour, message):
+    return ScriptedSolutionError(message) if flavour == 1 else ScriptedError(message)
+
+
 def real(v, scale):
     if v == NAN:
         return float('nan')
@@ -69,7 +78,7 @@ def model_class(nv, tracer=False, lags=0, leads=0):
                 for name, v in zip(endo, d['_v_wb']):
                     d['_' + name][t] = real(v, d['_v_scale'])
             if d['_v_before'] == 'exc':
-                raise ScriptedError('before')
+                raise fault(d['_v_flavour'], 'before')
 
         def solve_t_after(self, t, **kwargs):
             d = self.__dict__
@@ -78,7 +87,7 @@ def model_class(nv, tracer=False, lags=0, leads=0):
                 for name, v in zip(endo, d['_v_wa']):
                     d['_' + name][t] = real(v, d['_v_scale'])
             if d['_v_after'] == 'exc':
-                raise ScriptedError('after')
+                raise fault(d['_v_flavour'], 'after')
 
         def _evaluate(self, t, **kwargs):
             d = self.__dict__
@@ -97,7 +106,7 @@ def model_class(nv, tracer=False, lags=0, leads=0):
                 elif kind == 'warn':
                     d['_' + name][t] = warn_value(v, flavour)
                 elif kind == 'exc':
-                    raise ScriptedError(f'pass {k} equation {name}')
+                    raise fault(flavour, f'pass {k} equation {name}')
                 else:
                     raise AssertionError(kind)
 
@@ -180,7 +189,7 @@ def snapshot(m):
 def classify_exc(e):
     if e is None:
         return 'none'
-    if isinstance(e, ScriptedError):
+    if isinstance(e, (ScriptedError, ScriptedSolutionError)):
         return 'exc' if str(e).startswith('pass') else 'hook'
     if isinstance(e, Warning):
         return 'warning'
